@@ -486,7 +486,7 @@ PROPS = {
     "C15": {
         "level": "proof",
         "level_prefix": "Partial proof -- contracts discharged without bound on the mechanisms named below, not the whole statement (bounded stand-ins and what is left out are listed): ",
-        "units": ["queries", "sections", "streamcfg"],
+        "units": ["queries", "sections", "streamcfg", "dgram"],
         "extra_searches": [
             {"bin": "c15_search_dgram_scripts", "crate": "replay_client", "release": True,
              "what": "the datagram transport under tokio's virtual clock against a scripted in-memory peer: for each of the two transmissions up to two "
@@ -517,7 +517,7 @@ PROPS = {
                      "stored, the invariant is preserved (an induction step, so histories of every length are covered up to the "
                      "table size)"},
         ],
-        "explanation": "contract on the data structure that ties a response to its request on a multiplexed stream (message ID = slot "
+        "explanation": "Unit dgram (net/client/dgram.rs, real text of the async Connection::handle_request_impl -- the whole life of one request on the datagram transport -- under edit kind DESUGAR_ASYNC, with sockets, semaphore, clock and timer as prelude models that may answer anything at every step): the message handed to the caller has passed request.is_answer for the request as last transmitted (same question, the ID of that transmission), whatever arrived before it; the number of transmissions is 1 + max_retries, which cannot overflow because Config::set_max_retries (real text, with DefMinMax::limit) trims the value to at most 100 (seed C15-7, a truncated datagram accepted without the test, fails the postcondition). contract on the data structure that ties a response to its request on a multiplexed stream (message ID = slot "
                        "index of net/client/stream.rs::Queries): representation invariant (count == number of occupied slots, all slots "
                        "below curr occupied, at most 65535 slots so every index fits a 16-bit ID) is preserved by new/insert/insert_at/"
                        "try_remove; insert hands out only a slot that was free or new and leaves every other slot untouched (no "
@@ -532,7 +532,7 @@ PROPS = {
                        "header is refused. The configured timeout (unit streamcfg, real text of stream::Config and utils::config::DefMinMax): after "
                        "set_response_timeout(t) the timeout in effect, the one installed for single-response requests and the streaming one are all t trimmed "
                        "to 1 ms..600 s (this contract exposed D53).",
-        "not_covered": "Everything else about delivery: question-by-question equality inside is_answer rests on Question's == (names: C04), the header-only error reply rule of the transports, exactly-once completion, "
+        "not_covered": "Everything else about delivery: question-by-question equality inside is_answer rests on Question's == (names: C04), the header-only error reply rule of the transports (the acceptance test itself, RequestMessage::is_answer, is under contract in unit sections; the datagram transport is proved to apply it to everything it hands out, the stream transports are not), exactly-once completion, "
                        "the redundant and load-balancing transports, multi_stream's reconnection logic, real sockets and real-time scheduling (async tasks "
                        "over tokio; schedules are outside contract-based verification -- the datagram transport's receive loop and the truncation fallback "
                        "are explored natively under a virtual clock, see the searches, not proved).",
